@@ -102,7 +102,10 @@ def merge_results(results: typing.Sequence[Result]) -> Result:
 
     # Determine merge strategy:
     strategy = "average"
-    length_lists = [[a.size for a in r.np_arrays.values()] for r in results]
+    # Compare the sizes per key, independent of the order of the dict entries.
+    array_keys = list(results[0].np_arrays.keys())
+    length_lists = [[r.np_arrays[key].size for key in array_keys]
+                    for r in results]
     if not all(a == b for a, b in zip(length_lists, length_lists[1:])):
         logger.warning("Appending raw value arrays due to different lengths.")
         strategy = "append"
